@@ -20,7 +20,7 @@ theorem C07_bad_pattern (lookup : Bytes → DirSpec) (pat : Bytes) (st : PadStyl
 
 /-- a missing (unreadable) directory is an error -/
 theorem C07_missing_dir (lookup : Bytes → DirSpec) (pat : Bytes) (st : PadStyle) (strict hidden : Bool)
-    (fs : Seq) (h : Seq.parse st pat = .ok fs) (hd : lookup fs.dir = none) :
+    (fs : Seq) (h : Seq.parse st pat = .ok fs) (hd : lookup (openDir fs.dir) = none) :
     ∃ e, findSequenceOnDisk lookup pat st strict hidden = .error e :=
   find_missing_dir lookup pat st strict hidden fs h hd
 
@@ -55,11 +55,11 @@ theorem C07_glob_only_frames (o : ListOpts) (t : Seq) (items : List FileItem)
     else the directory holds and in whatever order it is read. -/
 theorem C07_complete (lookup : Bytes → DirSpec) (pat : Bytes) (st : PadStyle) (hidden : Bool)
     (fs : Seq) (entries : List Entry) (w : Nat)
-    (hp : Seq.parse st pat = .ok fs) (hl : lookup fs.dir = some entries)
+    (hp : Seq.parse st pat = .ok fs) (hl : lookup (openDir fs.dir) = some entries)
     (hnd : ∀ e ∈ entries, e.kind ≠ .dangling)
     (toks : List Bytes)
     (htoks : toks = FindComplete.candToks ⟨false, hidden, st⟩ fs
-        ((entries.filter fun e => e.kind = .file ∨ e.kind = .linkFile).map fun e => ⟨dirPrefix fs.dir, e.name⟩))
+        ((entries.filter fun e => e.kind = .file ∨ e.kind = .linkFile).map fun e => ⟨dirPrefix (openDir fs.dir), e.name⟩))
     (h2 : 2 ≤ toks.length) (hw : ∀ tk ∈ toks, tk.length = w) :
     ∃ s, findSequenceOnDisk lookup pat st false hidden = .ok (some s) ∧
       s.dir = fs.dir ∧ s.base = fs.base ∧ s.ext = fs.ext ∧ s.style = st ∧
